@@ -22,6 +22,9 @@ type c14Case struct {
 	Actions []int // 0..3 Aggregate(level), 4 Aggregated.ToHTML, 5 Snapshot.ToHTML, 6 IsRace
 	// Processed: every frame carries the typed argument texts source analysis adds
 	Processed bool `json:",omitempty"`
+	// Race: the snapshot is a race report (aggregating one is allowed) whose goroutines share
+	// operation and creation stacks up to pointer arguments - also in the creation frames
+	Race *RaceM `json:",omitempty"`
 }
 
 var actionNames = []string{"Aggregate(ExactFlags)", "Aggregate(ExactLines)", "Aggregate(AnyPointer)", "Aggregate(AnyValue)", "Aggregated.ToHTML", "Snapshot.ToHTML", "IsRace"}
@@ -44,6 +47,16 @@ func setProcessed(s *stack.Snapshot) {
 func c14Oracle(c c14Case) error {
 	opts := &stack.Opts{NameArguments: c.Naming}
 	parse := func() (*stack.Snapshot, error) {
+		if c.Race != nil {
+			s, err := scanAloneOpts(c.Race.Print(), opts)
+			if s == nil {
+				return nil, fmt.Errorf("HARNESS: generated race report does not parse: %v", err)
+			}
+			if c.Processed {
+				setProcessed(s)
+			}
+			return s, nil
+		}
 		s, err := parseDump(&c.D, opts)
 		if err == nil && c.Processed {
 			setProcessed(s)
@@ -124,6 +137,16 @@ func names(a []int) []string {
 var c14Hist = Check[c14Case]{
 	Prop: "C14", Name: "history",
 	Gen: func(t *rapid.T) c14Case {
+		if oneIn(t, 6, "raceSnapshot") {
+			r := genAggRace(t)
+			for i := 1; i < len(r.Secs); i++ {
+				if sl := scalarSlots(r.Secs[i].Frames); len(sl) > 0 && rapid.Bool().Draw(t, "creatorArg") {
+					sl[0].Val = 0xc000100000 + uint64(i)*8
+				}
+			}
+			return c14Case{Race: &r, Naming: rapid.Bool().Draw(t, "naming"), Processed: oneIn(t, 3, "processed"),
+				Actions: rapid.SliceOfN(rapid.IntRange(0, 6), 1, 30).Draw(t, "actions")}
+		}
 		return c14Case{D: genAggDump(t, 20), Naming: rapid.Bool().Draw(t, "naming"), Processed: oneIn(t, 3, "processed"),
 			Actions: rapid.SliceOfN(rapid.IntRange(0, 6), 1, 30).Draw(t, "actions")}
 	},
@@ -137,15 +160,24 @@ var c14Hist = Check[c14Case]{
 			}
 		}
 		merge := false
-		if s, err := parseDump(&c.D, plainOpts()); err == nil {
+		in := c.D.Print()
+		if c.Race != nil {
+			in = c.Race.Print()
+			if s, _ := scanAloneOpts(in, plainOpts()); s != nil {
+				merge = mixedBucket(s)
+			}
+		} else if s, err := parseDump(&c.D, plainOpts()); err == nil {
 			merge = mixedBucket(s)
 		}
 		cl := []string{}
 		if merge {
 			cl = append(cl, "merge_happens")
 		}
-		return Obs{Nontrivial: len(lv) >= 2 && merge, Digest: digestBytes(c.D.Print(), []byte(fmt.Sprint(c.Actions, c.Naming))), Classes: cl,
-			Sample: map[string]any{"actions": names(c.Actions), "dump": quoteShort(truncBytes(c.D.Print(), 500))}}
+		if c.Race != nil {
+			cl = append(cl, "race_snapshot")
+		}
+		return Obs{Nontrivial: len(lv) >= 2 && merge, Digest: digestBytes(in, []byte(fmt.Sprint(c.Actions, c.Naming, c.Processed))), Classes: cl,
+			Sample: map[string]any{"actions": names(c.Actions), "dump": quoteShort(truncBytes(in, 500))}}
 	},
 }
 
